@@ -29,9 +29,9 @@ theorem sB_phi_assign (f : Sem) (j : Job) (cl : Cluster) (s s' : Sys) (a : Asg) 
     obtain ⟨hd, hfi, hmem, hlen⟩ := sB_assignOne j cl s.ctl c a prep heq
     have hd0 := h1.once.comp a.task hmem
     have hlt := h2.comp_valid a.task hmem
-    have hfr := sL_applyCmds_frame j cl (actCmds a prep) s.env
-    have hout := sB_applyCmds_out j cl (actCmds a prep) s.env
-    have hio := sB_actCmds_io a prep
+    have hfr := sL_applyCmds_frame j cl (actCmds j a prep) s.env
+    have hout := sB_applyCmds_out j cl (actCmds j a prep) s.env
+    have hio := sB_actCmds_io j a prep
     simp only [sB_phi, hfi, hfr.1, hfr.2, hout, hd]
     have hsum := sB_sum_upd j.taskIds (sB_tw j s.ctl.dispatched s.env.ran)
       (sB_tw j (upd s.ctl.dispatched a.task (s.ctl.dispatched a.task + 1)) s.env.ran) a.task (sB_taskIds_nodup j)
@@ -74,11 +74,12 @@ theorem sB_phi_recv (f : Sem) (j : Job) (cl : Cluster) (s s' : Sys) (evs : List 
     simp only [sB_phi, hfr.1, hfr.2, hout]
     omega
 
-theorem sB_phi_env (f : Sem) (j : Job) (cl : Cluster) (s s' : Sys) (es : EnvStep) (h2 : Inv2 j cl s)
+theorem sB_phi_env (f : Sem) (j : Job) (cl : Cluster) (s s' : Sys) (es : EnvStep) (h1 : Inv1 cl s) (h2 : Inv2 j cl s)
     (hs : step f j cl s (.env es) = some s') : s'.rounds = s.rounds ∧ sB_phi j s' ≤ sB_phi j s := by
   simp only [step] at hs
   split at hs
   · cases hs
+  rw [envStepP_eq f j s.env es h1.no_trim] at hs
   cases he : envStep f j s.env es with
   | none => simp [he] at hs
   | some e =>
@@ -269,6 +270,6 @@ theorem sB_phi_step (f : Sem) (j : Job) (cl : Cluster) (s s' : Sys) (st : Step) 
   | recv evs => have := sB_phi_recv f j cl s s' evs hs; exact ⟨by omega, Or.inl this.1⟩
   | notify1 => have := sB_phi_notify1 f j cl s s' hs; exact ⟨this.2, Or.inl this.1⟩
   | endNotify => have := sB_phi_control f j cl s s' _ (by simp) hs; exact ⟨this.2, Or.inl this.1⟩
-  | env es => have := sB_phi_env f j cl s s' es hA.h2 hs; exact ⟨this.2, Or.inl this.1⟩
+  | env es => have := sB_phi_env f j cl s s' es hA.h1 hA.h2 hs; exact ⟨this.2, Or.inl this.1⟩
 
 end EkwVerif.Ctrl
